@@ -7,7 +7,7 @@
     LCGen.ProfileStrings regenerated from generatorprofile.cpp on every run: every statement below that mentions
     profile_C / profile_Py / prof k is re-checked against the strings the library has NOW. *)
 From Coq Require Import String Ascii List Bool Arith.
-From LC Require Import Common AstDefs GenDefs EmitDefs EmitProofs EmitIndexProofs.
+From LC Require Import Common AstDefs GenDefs EmitDefs EmitProofs EmitIndexProofs EmitRefsProofs.
 From LCGen Require Import AstTypes ProfileStrings ProfileMembers.
 Import ListNotations.
 Local Open Scope string_scope.
@@ -456,6 +456,33 @@ Example C17_index_example :
   /\ ~ In "void findRoot0(double voi, double *states, double *rates, double *variables)" (declared_sigs profile_C ex_model).
 Proof. exact EmitIndexProofs.index_example. Qed.
 Print Assumptions C17_index_example.
+
+(** ** 6d. [refs_resolve] as a decidable premise (EmitRefsProofs.v)
+    The analysed model is an INPUT of the generator model (the accessor dump), so the premise cannot be derived inside it;
+    it is decidable, and it is the generator-side image of C05's analysis-side statement C05_result_wf_equation_vars
+    (AnalysisEqVarsProofs.v: every variable an equation lists is a variable of the result that lists the equation back). *)
+Theorem C17_refs_resolveb_spec : forall m, refs_resolveb m = true <-> refs_resolve m.
+Proof. exact EmitRefsProofs.refs_resolveb_spec. Qed.
+Print Assumptions C17_refs_resolveb_spec.
+
+(** index safety with computable premises only *)
+Theorem C17_every_index_below_count_b : forall m, wf_indices_b m = true -> refs_resolveb m = true ->
+  (forall v, In v (am_states m) -> av_index v < length (am_states m))
+  /\ (forall v, In v (am_variables m) -> av_index v < length (am_variables m))
+  /\ (forall e t i, In e (am_equations m) -> In (t, i) (ae_vars e) -> i < array_length m t).
+Proof. exact EmitRefsProofs.every_index_below_count_b. Qed.
+Print Assumptions C17_every_index_below_count_b.
+
+(** non-vacuity on the accessor dump of a REAL generated model (xor__piece_condition__dae_ext, library at 85ba0d4): both
+    premises evaluate to true and every listed cell is in range; the premise is false on a model whose equation lists a
+    cell that does not exist *)
+Example C17_refs_example :
+  wf_indices_b dumped_model = true /\ refs_resolveb dumped_model = true /\ nla_systems dumped_model = [(0, 1)]
+  /\ (forall e t i, In e (am_equations dumped_model) -> In (t, i) (ae_vars e) -> i < array_length dumped_model t)
+  /\ array_length dumped_model VState = 1 /\ array_length dumped_model VAlgebraic = 5
+  /\ refs_resolveb bad_refs_model = false /\ refs_resolveb ex_model = true.
+Proof. exact EmitRefsProofs.refs_example. Qed.
+Print Assumptions C17_refs_example.
 
 (** ** 7. validity guards *)
 
